@@ -30,7 +30,7 @@ def tasks(tier):
     t += [("t_slip_rates", {"fabric": fb}) for ph, fb in kernel.FABRICS if ph == "olivine"]
     t += [("t_energy", {"phase": ph, "fabric": fb}) for ph, fb in kernel.FABRICS]
     t += [("t_glue", {"phase": ph, "fabric": fb}) for ph, fb in kernel.FABRICS]
-    t += [("t_derivatives", {"regime": rg, "n_grains": 2 if tier == "quick" else 3}) for rg in ("matrix_dislocation", "frictional_yielding")]
+    t += [("t_derivatives", {"regime": rg, "n_grains": n}) for rg in ("matrix_dislocation", "frictional_yielding") for n in ((2,) if tier == "quick" else (1, 3, 5))]
     t += [("t_jit_vs_source", {"n": 40 if tier == "quick" else 400})]
     return t
 
